@@ -278,11 +278,18 @@ _public_ int m_mod_ps_subscribe(m_mod_t *mod, const char *topic, m_src_flags fla
         } else {
             ev_src_t *old_sub = m_map_get(mod->subscriptions, topic);
             if (old_sub) {
-                if (old_sub->flags == flags) {
-                    /* Only update userptr */
-                    old_sub->userptr = userptr;
-                    return 0;
+                /*
+                 * Repeated subscription: update it in place.
+                 * (Replacing it through the map would leave the map entry keyed
+                 * by the old subscription's topic string, that may be freed with it.)
+                 */
+                regfree(&regex);
+                if ((old_sub->flags & M_SRC_AUTOFREE) && old_sub->userptr != userptr) {
+                    memhook._free((void *)old_sub->userptr);
                 }
+                old_sub->flags = (flags & ~M_SRC_DUP) | (old_sub->flags & M_SRC_DUP);
+                old_sub->userptr = userptr;
+                return 0;
             }
         }
 
